@@ -505,7 +505,47 @@ class ConfWorld(World):
             sys.stderr = old
 
 
+class CascadeWorld(ConfWorld):
+    """The cache under test has another cache as its source (same grid, same format: tiles are handed over one by one, with
+    the time stamp they have in that cache).  The cache behind keeps nothing fresh - it asks the upstream for every tile it
+    is asked for - and lives BACK_TICKS in the past: its tiles are older than the moment the cache in front stores them.
+    A tile written into the cache in front is as old as its own writing, whatever came along with it."""
+    BACK_TICKS = 40
+
+    def conf(self, rule):
+        c = ConfWorld.conf(self, rule)
+        c['caches']['back'] = {'grids': ['g'], 'sources': ['up'], 'format': 'image/png', 'meta_buffer': 0, 'meta_size': [1, 1],
+                               'concurrent_tile_creators': 1,
+                               'cache': {'type': 'file', 'directory': os.path.join(self.root, 'cache-behind')}}
+        c['caches']['c']['sources'] = ['back']
+        return c
+
+    def new_manager(self, rule, seed=False):
+        mgr = ConfWorld.new_manager(self, rule, seed=seed)
+        back = self.pc.caches['back'].caches()[0][2]
+        if not any(getattr(s, 'tile_manager', None) is back for s in mgr.sources):
+            raise tlc.MachineryError('the cache in front does not use the tile manager of the cache behind')
+        if getattr(back, '_verif_wrapped', False):
+            return mgr
+        orig = back.load_tile_coords
+        world = self
+
+        def load_tile_coords(coords, **kw):
+            coords = list(coords)
+            back.remove_tile_coords([c for c in coords if c is not None])
+            _Env.tick -= world.BACK_TICKS
+            try:
+                return orig(coords, **kw)
+            finally:
+                _Env.tick += world.BACK_TICKS
+        back.load_tile_coords = load_tile_coords
+        back._verif_wrapped = True
+        return mgr
+
+
 def make_world(root, backend, path, ntiles, mode='direct'):
+    if mode == 'cascade':
+        return CascadeWorld(root, backend, path, ntiles)
     if mode == 'config' and backend != 'mbtiles-ts':
         return ConfWorld(root, backend, path, ntiles)
     return World(root, backend, path, ntiles)
@@ -993,7 +1033,10 @@ def spec_to_code(ctx, prec, tally, covers):
         name = '%s-%s' % (backend, path)
         for k, beh in enumerate(behs):
             # thorough: every behaviour on directly constructed objects and on configured ones; quick: alternating
-            for mode in (('direct', 'config') if thorough else (('direct', 'config')[k % 2],)):
+            modes = ('direct', 'config') if thorough else (('direct', 'config')[k % 2],)
+            if what == 'simulation' and path == 'single' and backend in ('sqlite', 'file') and (thorough or k % 2 == 0):
+                modes = modes + ('cascade',)       # the cache has another cache as its source
+            for mode in modes:
                 if mode == 'config' and backend == 'mbtiles-ts':
                     continue
                 w = make_world(os.path.join(ctx.sub('world'), name), backend, path, ntiles, mode)
